@@ -751,8 +751,11 @@ def _ln(om, s):
     raise ValueError(t)
 
 
-def build(spec, hook=None, problem_kwargs=None, comp_factory=None):
-    """Build (not set up) the real OpenMDAO problem for a spec."""
+def build(spec, hook=None, problem_kwargs=None, comp_factory=None, defer=None):
+    """Build (not set up) the real OpenMDAO problem for a spec.
+
+    defer: optional set of target variable names whose explicit connect() call is not issued; the calls are kept as
+    thunks in prob._omv_deferred (histories that add connections between two setups)."""
     import openmdao.api as om
     from omv.gen.comps import HExplicit, HImplicit, HExplicitMF, HImplicitMF
     prob = om.Problem(**(problem_kwargs or {}))
@@ -846,6 +849,7 @@ def build(spec, hook=None, problem_kwargs=None, comp_factory=None):
                 group.options['assembled_jac_type'] = node['ln'].get('jac_type', 'csc')
 
     fill(prob.model, spec['tree'], 0, ())
+    deferred = []
     # explicit connections
     for cn in spec['conns']:
         if cn['how'] == 'param':
@@ -858,9 +862,14 @@ def build(spec, hook=None, problem_kwargs=None, comp_factory=None):
         chain = cn['chain']
         if chain and not (cn['how'] == 'promote+connect' and len(chain) == 1 and False):
             link = chain[0]
-            g.connect(s, t, src_indices=_dec(link['idx']), flat_src_indices=bool(link['flat']))
+            kw = dict(src_indices=_dec(link['idx']), flat_src_indices=bool(link['flat']))
         else:
-            g.connect(s, t)
+            kw = {}
+        if defer and cn['tgt'] in defer:
+            deferred.append((lambda g=g, s=s, t=t, kw=kw: g.connect(s, t, **kw)))
+        else:
+            g.connect(s, t, **kw)
+    prob._omv_deferred = deferred
     # parameters (auto-IVC)
     for p in spec['params']:
         users = [cn for cn in spec['conns'] if cn['how'] == 'param' and cn['src'] == p['name']]
